@@ -19,15 +19,22 @@ func init() {
 	core.Register(&core.Prop{
 		ID: "C03",
 		Rule: "polygon phase (a quarter of the lattice spellings are repeated translated by 2^20..2^30, where the area is still exactly representable; 30% of the spellings are handed over with rings laid out as consecutive sub-slices of one backing array): case = one valid lattice polygon (star-shaped or rectilinear integer shell, 0-4 lattice holes in disjoint cells strictly inside) or multi-polygon of 1-3 disjoint members, explored over its spelling orbit (every subset of rings reversed for <= 3 rings, sampled above; random rotation of each ring's start vertex; closed/unclosed spelling per ring) and a float image under a random similarity transform; Area/Centroid (geom and op) compared with exact rational shoelace measures (== on the integer grid, 1e-10 relative on floats); " +
+			"extreme_magnitude phase: the same lattice polygons and multi-polygons (closed rings, shell and holes oppositely oriented, all rings reversed together in half of the cases, random start vertices) multiplied by 2^k, k in -1000..-300 and 300..1010 (exact), a fifth of them also translated by up to 2^6 sizes: Polygon.Centroid, MultiPolygon.Centroid and op.Centroid compared with the exact rational centroid scaled by 2^k, to 1e-10 of the extent, and required to lie in the bounding box; " +
 			"line phase: random and integer line strings (repeated vertices included) with query points on the line, beyond its ends and at random: Length, Distance vs 200-bit references; Point.Buffer vs the regular n-gon; " +
 			"an evaluation is one measured call; non-trivial = shape with a hole or a reversed/rotated spelling whose measure was compared; distinct by spelling hash",
-		Assumptions: []string{"Polygon.Centroid / op.Centroid / op.Area are exercised only under their documented preconditions (closed rings, shell and holes oppositely oriented), as the property states", "polygon coordinates are drawn between 1e-3 and 1e7 in magnitude, lattice shapes also translated by 2^20..2^50 (areas and centroids are sums of products of two and three coordinates: beyond 1e154 resp. 1e103 the library overflows although the result would be representable - recorded in DESIGN as not taken up); line strings also at 1e155..1e160 and 1e-160..1e-155", "float images up to 10 x size away are judged to 1e-10; images 10^2..10^6 x size away to 1e-10 + 1e-14 x (offset/size), the accuracy of a sum over coordinate differences"},
+		Assumptions: []string{"Polygon.Centroid / op.Centroid / op.Area are exercised only under their documented preconditions (closed rings, shell and holes oppositely oriented), as the property states", "polygon coordinates are drawn between 1e-3 and 1e7 in magnitude, lattice shapes also translated by 2^20..2^50 (areas are sums of products of two coordinates and are not asked for beyond 1e150, where the area itself leaves the float64 range; centroids are judged at every magnitude from 2^-1000 to 2^1010 in the extreme_magnitude phase); line strings also at 1e155..1e160 and 1e-160..1e-155", "float images up to 10 x size away are judged to 1e-10; images 10^2..10^6 x size away to 1e-10 + 1e-14 x (offset/size), the accuracy of a sum over coordinate differences"},
 		Phases: []core.Phase{
 			{Name: "polygon", NumCases: func(t string) int {
 				if t == "thorough" {
 					return 150000
 				}
 				return 4000
+			}},
+			{Name: "extreme_magnitude", NumCases: func(t string) int {
+				if t == "thorough" {
+					return 200000
+				}
+				return 6000
 			}},
 			{Name: "line", NumCases: func(t string) int {
 				if t == "thorough" {
@@ -40,7 +47,7 @@ func init() {
 		Floors: func(t string) map[string]int64 {
 			return map[string]int64{"orbit.reversed_single_ring": 1000, "orbit.unclosed": 1000, "orbit.all_reversed": 500, "orbit.rings_in_another_order": 500, "shape.with_holes": 500, "shape.hole_inside_the_box_of_another_hole": 150, "shape.every_shell_vertex_touched_by_a_hole": 60, "shape.multipolygon": 300,
 				"centroid.MultiPolygon": 1000, "centroid.Polygon": 500, "area.exact_equal": 5000, "area.float": 1000, "op.area": 500, "op.centroid": 500,
-				"distance.on_line": 500, "distance.beyond_end": 500, "distance.zero_length_segment": 200, "buffer": 500, "length": 1000, "line.long": 300, "storage.rings_share_one_backing_array": 1000, "area.again_after_centroid_of_unclosed_spelling": 1000, "shape.far_from_origin": 1000, "shape.float_far_from_origin": 500, "shape.island_in_a_hole_of_another_member": 100, "line.very_long": 100, "line.extreme_magnitude": 200}
+				"distance.on_line": 500, "distance.beyond_end": 500, "distance.zero_length_segment": 200, "buffer": 500, "length": 1000, "line.long": 300, "storage.rings_share_one_backing_array": 1000, "area.again_after_centroid_of_unclosed_spelling": 1000, "shape.far_from_origin": 1000, "shape.float_far_from_origin": 500, "shape.island_in_a_hole_of_another_member": 100, "line.very_long": 100, "line.extreme_magnitude": 200, "extreme.centroid_judged": 5000, "extreme.beyond_1e103": 1000, "extreme.below_1e-108": 1000, "extreme.with_holes": 500, "extreme.multipolygon": 500, "extreme.far_from_origin_as_well": 300}
 		},
 	})
 }
@@ -48,6 +55,8 @@ func init() {
 func run(c *core.Ctx, idx int) {
 	if c.Phase == "polygon" {
 		runPolygon(c)
+	} else if c.Phase == "extreme_magnitude" {
+		runExtreme(c)
 	} else {
 		runLine(c)
 	}
@@ -787,4 +796,111 @@ func runBounds(c *core.Ctx) {
 			c.Violate("centroid:*Bounds", fmt.Sprintf("Bounds.Centroid() = %v", ct), detail)
 		}
 	})
+}
+
+// runExtreme: the centroid of figures whose extent is far from 1. The sums behind a centroid are
+// cubic in the extent: a maintainer's "sum of products" overflows from 1e103 on and underflows
+// below 1e-108 although the centroid itself is an ordinary multiple of the coordinates.
+func runExtreme(c *core.Ctx) {
+	r := c.R
+	nm := 1
+	if r.Chance(0.35) {
+		nm = r.IntRange(2, 3)
+		c.Count("extreme.multipolygon")
+	}
+	// an integer offset of the whole figure (exact): up to 2^6 sizes away, in a fifth of the cases
+	off := 0.0
+	if r.Chance(0.2) {
+		off = float64(r.IntRange(1, 64) * 1024)
+		c.Count("extreme.far_from_origin_as_well")
+	}
+	totalA, mX, mY := new(big.Rat), new(big.Rat), new(big.Rat)
+	k := r.IntRange(300, 1010)
+	if off != 0 {
+		k = r.IntRange(300, 1000)
+	}
+	if r.Bool() {
+		k = -r.IntRange(300, 1000)
+	}
+	mp := make(geom.MultiPolygon, nm)
+	revAll := r.Bool()
+	holes := false
+	ext := 0.0
+	for m := 0; m < nm; m++ {
+		b := genBase(r, float64(m)*200)
+		a, cx, cy := b.measures()
+		totalA.Add(totalA, a)
+		mX.Add(mX, new(big.Rat).Mul(a, cx))
+		mY.Add(mY, new(big.Rat).Mul(a, cy))
+		sp := spelling{rev: make([]bool, len(b.rings)), rot: make([]int, len(b.rings)), closed: make([]bool, len(b.rings))}
+		for i := range b.rings {
+			sp.rev[i] = (i > 0) != revAll
+			sp.rot[i] = r.Intn(len(b.rings[i]))
+			sp.closed[i] = true
+		}
+		holes = holes || len(b.rings) > 1
+		pg := b.spell(sp)
+		for _, ring := range pg {
+			for i := range ring {
+				ext = math.Max(ext, math.Max(math.Abs(ring[i].X), math.Abs(ring[i].Y)))
+				ring[i] = geom.Point{X: math.Ldexp(ring[i].X+off, k), Y: math.Ldexp(ring[i].Y+off, k)}
+			}
+		}
+		mp[m] = pg
+	}
+	if holes {
+		c.Count("extreme.with_holes")
+	}
+	size := math.Ldexp(ext, k)
+	if size >= 1e103 {
+		c.Count("extreme.beyond_1e103")
+	}
+	if size <= 1e-108 {
+		c.Count("extreme.below_1e-108")
+	}
+	wantCx := math.Ldexp(exact.F(new(big.Rat).Quo(mX, totalA))+off, k)
+	wantCy := math.Ldexp(exact.F(new(big.Rat).Quo(mY, totalA))+off, k)
+	h := core.NewHasher()
+	gen.HashGeom(h, mp)
+	c.Nontrivial(h.Sum())
+	detail := map[string]interface{}{"geometry": gen.Dump(mp), "want_centroid": []float64{wantCx, wantCy}, "scaled_by_2_to_the": k, "offset_before_scaling": off}
+	if c.WantSample() {
+		c.Sample(detail)
+	}
+	tol := 1e-10*size + 4e-16*math.Ldexp(off, k)
+	okC := func(got geom.Point) bool {
+		return math.Abs(got.X-wantCx) <= tol && math.Abs(got.Y-wantCy) <= tol
+	}
+	class := "above"
+	if k < 0 {
+		class = "below"
+	}
+	c.Eval()
+	c.Count("extreme.centroid_judged")
+	c.Guard("MultiPolygon.Centroid", detail, func() {
+		got := mp.Centroid()
+		if !okC(got) {
+			c.Violate("centroid:MultiPolygon:extreme:"+class, fmt.Sprintf("MultiPolygon.Centroid() = %v for a figure of size %.3g, exact centroid (%v, %v)", got, size, wantCx, wantCy), detail)
+			return
+		}
+		b := mp.Bounds()
+		if !(got.X >= b.Min.X && got.X <= b.Max.X && got.Y >= b.Min.Y && got.Y <= b.Max.Y) {
+			c.Violate("centroid-outside-bounds:MultiPolygon:extreme", fmt.Sprintf("MultiPolygon.Centroid() = %v outside bounds %v", got, *b), detail)
+		}
+	})
+	if nm == 1 {
+		c.Eval()
+		c.Guard("Polygon.Centroid", detail, func() {
+			if got := mp[0].Centroid(); !okC(got) {
+				c.Violate("centroid:Polygon:extreme:"+class, fmt.Sprintf("Polygon.Centroid() = %v for a figure of size %.3g, exact centroid (%v, %v)", got, size, wantCx, wantCy), detail)
+			}
+		})
+		c.Eval()
+		c.Guard("op.Centroid", detail, func() {
+			got, err := op.Centroid(mp[0])
+			if err != nil || !okC(got) {
+				c.Violate("centroid:op:extreme:"+class, fmt.Sprintf("op.Centroid = %v, %v for a figure of size %.3g; exact centroid (%v, %v)", got, err, size, wantCx, wantCy), detail)
+			}
+		})
+	}
 }
